@@ -1203,10 +1203,15 @@ class ConfigInformation:
             return [ConfigInformation._outputjsonvalue(el, context) for el in value]
 
         elif isinstance(value, dict):
-            return {
+            serialized = {
                 name: ConfigInformation._outputjsonvalue(el, context)
                 for name, el in value.items()
             }
+            if "type" in serialized:
+                # A JSON object with a "type" key stands for a typed value:
+                # a dictionary that has such a key is wrapped
+                return {"type": "dict", "value": serialized}
+            return serialized
 
         elif isinstance(value, Path):
             return {"type": "path", "value": str(value)}
@@ -1445,6 +1450,13 @@ class ConfigInformation:
             # The value is an object (that has been serialized first)
             if value["type"] == "python":
                 return objects[value["value"]]
+
+            # A dictionary with a "type" key
+            if value["type"] == "dict":
+                return {
+                    key: ConfigInformation._objectFromParameters(el, objects)
+                    for key, el in value["value"].items()
+                }
 
             # A path
             if value["type"] == "path":
